@@ -6,12 +6,13 @@ From Coq Require Import ZifyBool ZifyN ZifyNat.
 (* ---------------------------------------------------------------- bookkeeping lemmas *)
 
 Definition same_ctl (f g : eff) : Prop :=
-  f_out g = f_out f /\ e_slots (f_ep g) = e_slots (f_ep f) /\ f_closed g = f_closed f /\ f_done g = f_done f.
+  f_out g = f_out f /\ e_slots (f_ep g) = e_slots (f_ep f) /\ f_closed g = f_closed f /\ f_done g = f_done f /\
+  e_txq (f_ep g) = e_txq (f_ep f).
 
 Lemma same_ctl_refl f : same_ctl f f.
 Proof. repeat split. Qed.
 Lemma same_ctl_trans f g h : same_ctl f g -> same_ctl g h -> same_ctl f h.
-Proof. intros (A & B & C & D) (A' & B' & C' & D'). repeat split; congruence. Qed.
+Proof. intros (A & B & C & D & T) (A' & B' & C' & D' & T'). repeat split; congruence. Qed.
 
 Lemma wake_writer_ctl f oid : same_ctl f (wake_writer f oid).
 Proof.
@@ -474,7 +475,7 @@ Qed.
 Lemma drain_slots_done sl : forall f, f_done (drain_slots f sl) = f_done f.
 Proof.
   induction sl as [|[id s] r IH]; intros f; cbn [drain_slots]; auto.
-  rewrite IH. destruct (close_flow_local_inhibit_ctl f s id) as (_ & _ & _ & D). exact D.
+  rewrite IH. destruct (close_flow_local_inhibit_ctl f s id) as (_ & _ & _ & D & _). exact D.
 Qed.
 
 Theorem finish_task_spec f code :
@@ -552,14 +553,15 @@ Proof.
   destruct (e_accept_park (f_ep g)), (e_dgram_park (f_ep g)), (e_nextbind_park (f_ep g)); cbn [f_closed wake]; exact C.
 Qed.
 
-(* an error-caused wind-down does not wait for the peer: it is the end of the task *)
+(* an error-caused wind-down does not wait for the peer and flushes nothing: it is the end
+   of the task *)
 Lemma wind_down_nowait f code se :
-  exists g, wind_down f code false se = finish_task g code /\
-            f_out g = f_out f /\ f_done g = f_done f /\ f_closed g = true.
+  exists g, wind_down f code false se false = finish_task g code /\
+            f_out g = [] /\ f_done g = f_done f /\ f_closed g = true.
 Proof.
-  unfold wind_down. cbn [andb]. eexists. split; [reflexivity|]. cbn [f_out f_done f_closed with_ep].
-  match goal with |- context [disallow_all ?h ?sl] => destruct (disallow_all_ctl sl h) as (A & _ & _ & D) end.
-  rewrite A, D. repeat split.
+  unfold wind_down, wind_down2. cbn [andb]. eexists. split; [reflexivity|]. cbn [f_out f_done f_closed with_ep].
+  match goal with |- context [disallow_all ?h ?sl] => destruct (disallow_all_ctl sl h) as (A & _ & _ & D & _) end.
+  rewrite D. repeat split.
 Qed.
 
 (* a message that is not a valid frame ends the connection with InvalidFrame at once (no
@@ -572,7 +574,7 @@ Theorem invalid_message_ends e b :
 Proof.
   intros P B D. unfold deliver. cbn [f_ep start]. rewrite P, B. cbn [process_message].
   assert (K : forall g0, f_out g0 = [] -> f_done g0 = [] ->
-     let f' := wind_down g0 (100 + 9) false false in
+     let f' := wind_down g0 (100 + 9) false false false in
      e_phase (f_ep f') = Ended /\ e_slots (f_ep f') = [] /\
      f_done f' = [e_idx (f_ep f'); 109] /\ f_out f' = [] /\ f_closed f' = true).
   { intros g0 O0 D0. cbn zeta. destruct (wind_down_nowait g0 (100 + 9) false) as (g & -> & O & Dn & C).
@@ -737,3 +739,63 @@ Theorem new_stream_clean e id w h p :
   st_rxq s = [] /\ st_buf s = [] /\ st_since s = 0 /\ st_credit s = w /\ st_fin s = false /\
   st_txopen s = true /\ st_alive s = true /\ st_th s <= e_rwnd e.
 Proof. cbn. repeat split; auto. lia. Qed.
+
+(* ---------------------------------------------------------------- C08: flushing *)
+
+(* the send loop never loses or reorders a queued message: what is handed to the sink in a
+   label plus what stays queued is exactly what was queued plus what the label enqueued *)
+Lemma drain_slots_txq sl : forall f, e_txq (f_ep (drain_slots f sl)) = e_txq (f_ep f).
+Proof.
+  induction sl as [|[id s] r IH]; intros f; cbn [drain_slots]; auto.
+  rewrite IH. destruct (close_flow_local_inhibit_ctl f s id) as (_ & _ & _ & _ & T). exact T.
+Qed.
+Lemma finish_task_txq f code : e_txq (f_ep (finish_task f code)) = e_txq (f_ep f).
+Proof.
+  unfold finish_task. cbn zeta.
+  set (g := drain_slots (with_ep f (set_slots (f_ep f) [])) (e_slots (f_ep f))).
+  assert (T : e_txq (f_ep g) = e_txq (f_ep f)) by (unfold g; rewrite drain_slots_txq; reflexivity).
+  destruct (e_accept_park (f_ep g)), (e_dgram_park (f_ep g)), (e_nextbind_park (f_ep g)); exact T.
+Qed.
+
+Theorem settle_conserves f :
+  match e_phase (f_ep f) with WindDown6 _ | Ended => False | _ => True end ->
+  f_out (settle f) ++ e_txq (f_ep (settle f)) = e_txq (f_ep f) ++ f_out f.
+Proof.
+  intros H. unfold settle.
+  set (q := e_txq (f_ep f) ++ f_out f).
+  set (n := match e_permits (f_ep f) with None => len q | Some p => N.min p (len q) end).
+  set (e1 := set_permits (set_txq (f_ep f) (skipn (N.to_nat n) q))
+               match e_permits (f_ep f) with None => None | Some p => Some (p - n) end).
+  assert (P1 : e_phase e1 = e_phase (f_ep f)) by reflexivity.
+  assert (T1 : e_txq e1 = skipn (N.to_nat n) q) by reflexivity.
+  destruct (e_phase (f_ep f)) as [|c|code ended|code|] eqn:P; try contradiction; rewrite P1.
+  - cbn [f_out f_ep]. rewrite T1. apply firstn_skipn.
+  - cbn [f_out f_ep]. rewrite T1. apply firstn_skipn.
+  - destruct (skipn (N.to_nat n) q) as [|x r] eqn:Es.
+    + assert (Q : firstn (N.to_nat n) q = q) by (rewrite <- (firstn_skipn (N.to_nat n) q) at 2; now rewrite Es, app_nil_r).
+      unfold wind_down2. cbn [f_ep f_out f_wakes f_done].
+      destruct (true && negb ended).
+      * cbn [f_out f_ep with_ep]. change (e_txq (set_phase e1 (WindDown6 code))) with (e_txq e1). rewrite T1, Q. apply app_nil_r.
+      * match goal with |- context [finish_task ?g ?c] =>
+          pose proof (finish_task_spec g c) as S; cbn zeta in S; destruct S as (_ & _ & O & _);
+          rewrite O, (finish_task_txq g c) end.
+        cbn [f_out f_ep]. rewrite T1, Q. apply app_nil_r.
+    + cbn [f_out f_ep]. rewrite T1. rewrite <- Es. apply firstn_skipn.
+Qed.
+
+(* a handle drop with a ready sink: every message queued before the drop (and those the drop
+   itself enqueues) goes out, in order, and only then is the sink closed *)
+Theorem settle_drain f code ended :
+  e_phase (f_ep f) = WindDown4 code ended -> e_permits (f_ep f) = None ->
+  f_out (settle f) = e_txq (f_ep f) ++ f_out f /\ f_closed (settle f) = true.
+Proof.
+  intros P Pm. unfold settle. rewrite P, Pm. cbn [e_phase set_permits set_txq f_ep].
+  rewrite P. set (q := e_txq (f_ep f) ++ f_out f).
+  assert (S : skipn (N.to_nat (len q)) q = []) by (apply skipn_all2; unfold len; lia).
+  assert (F : firstn (N.to_nat (len q)) q = q) by (apply firstn_all2; unfold len; lia).
+  rewrite S, F. unfold wind_down2.
+  destruct (true && negb ended).
+  - cbn. auto.
+  - match goal with |- context [finish_task ?g ?c] => pose proof (finish_task_spec g c) as H; cbn zeta in H;
+      destruct H as (_ & _ & O & _); rewrite O, (finish_task_closed g c) end. cbn. auto.
+Qed.
